@@ -403,13 +403,15 @@ class TreeCooc(Whole):
         return _cls("vectorizers.tree_token_cooccurrence", "LabelledTreeCooccurrenceVectorizer")(**user_objects(self, self.cfg))
 
     def make_pool(self):
+        fmts = ["csr", "lil", "csc", "coo", "lil", "csr"]      # the adjacency matrix may arrive in any sparse format
+
         def tree(parents, labels):
             n = len(parents)
             A = sp.lil_matrix((n, n))
             for v, p in enumerate(parents):
                 if p >= 0:
                     A[p, v] = 1
-            return (A.tocsr(), np.array(labels))
+            return (A.asformat(fmts.pop(0) if fmts else "csr"), np.array(labels))
         return [[tree([-1, 0, 0, 1], ["a", "b", "c", "a"]), tree([-1, 0], ["b", "a"])],
                 [tree([-1, 0, 1, 2], ["a", "b", "a", "c"])], [tree([-1, 0, 0], ["c", "a", "b"]), tree([-1], ["a"])],
                 [tree([-1, 0, 1], ["b", "b", "a"])]]
